@@ -16,113 +16,180 @@ import ast
 from typing import Any, Dict, List, Optional, Tuple
 
 from ..core import AnalysisError, ClassInfo, Ctx, FuncInfo, body_without_docstring, calls_in, dotted, norm, walk_no_nested
-from ..layout import NotLayout, bls_term, term_str
+from .. import spec_tables as spec
+from ..absint import AObj, Evaluator, Raised, construct, make_obj, set_public
+from ..fold import Folder, Sym, Unfoldable
+from ..layout import NotLayout, TBls, bls_term, explore, mentions_only_min_max, show_term, term_str, under
 from ..regions import inline_properties, trivial_property_expr
+from .c02 import _field_type_grids, _layout_hook, aggregate_term, spec_structure, spec_union
 
 SER = "_serializable."
+FIELD = frozenset({"Field", "Attribute", "Any"})
 
 
-def iterator_trace(ctx: Ctx, cls: ClassInfo, fn: FuncInfo) -> List[str]:
-    """assignments to bit-length-set accumulators, loops and yields of an offset iterator, in order"""
-    base = fn.params[1]
-    accs = {base}
-    for st in ast.walk(fn.node):
-        if isinstance(st, ast.Assign) and isinstance(st.targets[0], ast.Name):
-            accs.add(st.targets[0].id)
+def _run_iterator(ctx: Ctx, cls: ClassInfo, fn: FuncInfo, me: AObj, base: TBls) -> List[Tuple[List[Any], List[Any], Any]]:
+    """abstract runs of an offset iterator: [(assumptions, yielded pairs, returned value)]"""
+    body = body_without_docstring(ctx.inl(fn))
 
-    def term(e: ast.AST) -> str:
-        e2 = inline_properties(ctx.repo, cls, e)
-        return term_str(bls_term(e2, lambda n: n in accs))
+    def run() -> Any:
+        ev = Evaluator({fn.params[0]: me, fn.params[1]: base}, ctx.repo, fn.module, cls, _layout_hook(ctx, fn.module, cls))
+        r = ev.run(body)
+        return list(ev.yielded), r
 
-    def walk(stmts: List[ast.stmt]) -> List[str]:
-        out: List[str] = []
-        for st in stmts:
-            if isinstance(st, ast.Assign) and isinstance(st.targets[0], ast.Name):
-                try:
-                    out.append("%s = %s" % (st.targets[0].id, term(st.value)))
-                except NotLayout:
-                    out.append("%s = ?%s" % (st.targets[0].id, norm(st.value)))
-            elif isinstance(st, ast.For):
-                it = norm(inline_properties(ctx.repo, cls, st.iter))
-                out.append("FOR %s in %s [%s]" % (norm(st.target), it, "; ".join(walk(st.body))))
-            elif isinstance(st, ast.Expr) and isinstance(st.value, ast.Yield):
-                v = st.value.value
-                if isinstance(v, ast.Tuple) and len(v.elts) == 2:
-                    out.append("YIELD(%s, %s)" % (norm(v.elts[0]), norm(v.elts[1])))
-                else:
-                    out.append("YIELD(?%s)" % norm(v))
-            elif isinstance(st, ast.Return) and st.value is not None:
-                out.append("RETURN %s" % norm(inline_properties(ctx.repo, cls, st.value)))
-            elif isinstance(st, (ast.Assert, ast.Pass)):
-                continue
-            elif isinstance(st, ast.Expr) and isinstance(st.value, ast.Constant):
-                continue
-            elif isinstance(st, ast.If):
-                out.append("IF %s [%s] [%s]" % (norm(st.test), "; ".join(walk(st.body)), "; ".join(walk(st.orelse))))
-            elif isinstance(st, ast.Raise):
-                out.append("RAISE")
-            else:
-                out.append("?%s" % type(st).__name__)
-        return out
+    try:
+        return [(a, y, r) for a, (y, r) in explore(run)]
+    except (Unfoldable, Raised, NotLayout) as ex:
+        raise AnalysisError("%s: cannot evaluate over abstract fields: %s" % (fn.short, ex))
 
-    return walk(body_without_docstring(fn.node))
+
+def _verdict(ctx: Ctx, fn: FuncInfo, assumptions: List[Any]) -> None:
+    kinds = [e for e, _ in assumptions]
+    if kinds and not all(mentions_only_min_max(e) or e[0] == "aligned" for e in kinds):
+        raise AnalysisError("%s: the offsets are conditional on %s, which this analysis cannot relate to alignment" % (fn.short, [show_term(e) for e in kinds]))
 
 
 def rule_r1_r2(ctx: Ctx) -> None:
     repo = ctx.repo
-    ctx.rule("C08.R1", "offset iterators: base padded to the type's alignment, then fields at the positions the layout model and the encoder give them", min_instances=5)
-    ctx.rule("C08.R2", "every field / element is yielded exactly once per loop iteration, in order, unconditionally", min_instances=3)
+    ctx.rule("C08.R1", "offset iterators, evaluated over abstract fields: base padded to the type's alignment, then every field at the position the layout model (the aggregation of the preceding fields) gives it", min_instances=5)
+    ctx.rule("C08.R2", "every field / element is yielded exactly once, in order", min_instances=3)
     st = ctx.cls(SER + "_composite.StructureType")
-    fn = st.methods.get("iterate_fields_with_offsets")
-    if fn is None:
-        raise AnalysisError("anchor StructureType.iterate_fields_with_offsets missing")
-    b = fn.params[1]
-    tr = iterator_trace(ctx, st, fn)
-    want = [
-        "offset = pad(var(%s), self.alignment_requirement)" % b,
-        "FOR f in self.fields [offset = pad(var(offset), f.data_type.alignment_requirement); YIELD(f, offset); offset = cat(var(offset), bls(f.data_type))]",
-    ]
-    ctx.check(tr == want, fn.short, " | ".join(tr), "a structure's field starts after padding the running offset to the field's alignment; the next offset adds the field's length set", fn.where(), {"expected": want}, rule="C08.R1")
-    ctx.check(sum(x.count("YIELD(") for x in tr) == 1 and "IF" not in " ".join(tr), fn.short, "one unconditional yield per field", "no field may be skipped or repeated", fn.where(), rule="C08.R2")
-    # cross-check with the aggregation step of the layout model: pad + add over one field
-    agg = st.methods.get("aggregate_bit_length_sets")
-    agg_src = norm(agg.node) if agg else ""
-    ctx.check("bls = bls.pad_to_alignment(t.alignment_requirement) + t.bit_length_set" in agg_src, st.short, "iterator step == aggregation step (pad to the field's alignment, then add its set)", "the offsets handed to code generators and the length model are the same computation", st.module.relpath, rule="C08.R1")
-
     un = ctx.cls(SER + "_composite.UnionType")
-    fn = un.methods.get("iterate_fields_with_offsets")
-    if fn is None:
-        raise AnalysisError("anchor UnionType.iterate_fields_with_offsets missing")
-    b = fn.params[1]
-    tr = iterator_trace(ctx, un, fn)
-    want = ["offset = cat(pad(var(%s), self.alignment_requirement), leaf(self._tag_field_type.bit_length))" % b, "FOR f in self.fields [YIELD(f, offset)]"]
-    ctx.check(tr == want, fn.short, " | ".join(tr), "every variant of a union starts right after the tag, which follows the padded base", fn.where(), {"expected": want}, rule="C08.R1")
-    ctx.check(sum(x.count("YIELD(") for x in tr) == 1 and "IF" not in " ".join(tr), fn.short, "one unconditional yield per variant", "no variant may be skipped or repeated", fn.where(), rule="C08.R2")
+    bases = [TBls.var("BASE", 1), TBls.var("BASE8", 8), TBls.of(0)]
+    for c in (st, un):
+        fn = c.methods.get("iterate_fields_with_offsets")
+        agg = c.methods.get("aggregate_bit_length_sets")
+        if fn is None or agg is None:
+            raise AnalysisError("anchor %s.iterate_fields_with_offsets / aggregate_bit_length_sets missing" % c.name)
+        bad1, bad2 = [], []
+        for ts in _field_type_grids():
+            if c is un and len(ts) < 2:
+                continue
+            fields = [Sym(data_type=t, name="f%d" % i, _isa_=(FIELD | {"PaddingField"}) if (c is st and i == 1) else FIELD) for i, t in enumerate(ts)]
+            al = max([8] + [t.alignment_requirement for t in ts])
+            tag = Sym(bit_length=max([spec.smallest_standard_width(len(ts) - 1)] + [t.alignment_requirement for t in ts]), alignment_requirement=1)
+            for base in bases:
+                me = make_obj(ctx, c, fields=fields, alignment_requirement=al, tag_field_type=tag)
+                for assumptions, yielded, _ in _run_iterator(ctx, c, fn, me, base):
+                    ctx.count()
+                    got_fields = [y[0] if isinstance(y, tuple) and len(y) == 2 else None for y in yielded]
+                    if [id(x) for x in got_fields] != [id(x) for x in fields]:
+                        bad2.append({"field alignments": [t.alignment_requirement for t in ts], "yielded": [getattr(x, "name", "?") for x in got_fields]})
+                        continue
+
+                    def expected() -> List[TBls]:
+                        out = []
+                        start = base.pad_to_alignment(al)
+                        for i, t in enumerate(ts):
+                            if c is st:
+                                # everything before the field, as the layout model aggregates it, then the field's own padding
+                                before = start + under(assumptions, lambda i=i: aggregate_term(ctx, agg, ts[:i]))
+                                out.append(before.pad_to_alignment(t.alignment_requirement))
+                            else:
+                                out.append(start + tag.bit_length)
+                        return out
+
+                    want = under(assumptions, expected)
+                    got = [y[1] for y in yielded]
+                    if got != want:
+                        _verdict(ctx, fn, assumptions)
+                        bad1.append({"field alignments": [t.alignment_requirement for t in ts], "base": repr(base), "assuming": ["%s is %s" % (show_term(e), v) for e, v in assumptions], "found": [repr(x) for x in got], "expected": [repr(x) for x in want]})
+        ctx.check(not bad1, fn.short, "offsets over 0..3 abstract fields x 3 abstract bases", "a field's offset is the padded base plus the layout aggregate of the fields before it, padded to the field's own alignment" if c is st else "every variant of a union starts right after the tag, which follows the padded base", fn.where(), bad1[:2], rule="C08.R1")
+        ctx.check(not bad2, fn.short, "each field yielded once, in order", "no field may be skipped, repeated or reordered", fn.where(), bad2[:2], rule="C08.R2")
+
+    # the structure aggregation is itself the Specification's (C02.R5): re-stated here because the offsets are defined through it
+    bad = []
+    agg = st.methods["aggregate_bit_length_sets"]
+    for ts in _field_type_grids():
+        for assumptions, got in explore(lambda: aggregate_term(ctx, agg, ts)):
+            if got != under(assumptions, lambda: spec_structure(ts)):
+                _verdict(ctx, agg, assumptions)
+                bad.append({"field alignments": [t.alignment_requirement for t in ts], "found": repr(got)})
+    ctx.check(not bad, st.short, "iterator step == aggregation step (pad to the field's alignment, then add its set)", "the offsets handed to code generators and the length model are the same computation", st.module.relpath, bad[:2], rule="C08.R1")
 
     dl = ctx.cls(SER + "_composite.DelimitedType")
     fn = dl.methods.get("iterate_fields_with_offsets")
     if fn is None:
         raise AnalysisError("anchor DelimitedType.iterate_fields_with_offsets missing")
-    b = fn.params[1]
-    tr = iterator_trace(ctx, dl, fn)
-    want = ["%s = cat(var(%s), bls(self._delimiter_header_type))" % (b, b), "RETURN self._inner.iterate_fields_with_offsets(%s)" % b]
-    alt = ["%s = cat(var(%s), leaf(self._delimiter_header_type.bit_length))" % (b, b), want[1]]
-    ctx.check(tr in (want, alt), fn.short, " | ".join(tr), "a delimited type's fields are those of the inner type, shifted by the delimiter header", fn.where(), {"expected": want}, rule="C08.R1")
+    bad = []
+    for base in bases:
+        class _Inner(Sym):
+            def iterate_fields_with_offsets(self, off: Any = 0) -> Any:
+                return ("INNER-FIELDS-AT", TBls.of(off))
+
+        inner = _Inner(alignment_requirement=8)
+        me = make_obj(ctx, dl, inner_type=inner, delimiter_header_type=Sym(bit_length=spec.DELIMITER_HEADER_BITS, bit_length_set=TBls.of(spec.DELIMITER_HEADER_BITS)), alignment_requirement=8)
+        for assumptions, yielded, ret in _run_iterator(ctx, dl, fn, me, base):
+            ctx.count()
+            want = ("INNER-FIELDS-AT", base + spec.DELIMITER_HEADER_BITS)
+            got = ret if not yielded else ("yielded", yielded)
+            if got != want:
+                bad.append({"base": repr(base), "found": repr(got), "expected": repr(want)})
+    ctx.check(not bad, fn.short, "inner iterator at base + header", "a delimited type's fields are those of the inner type, shifted by the delimiter header", fn.where(), bad[:2], rule="C08.R1")
 
     fa = ctx.cls(SER + "_array.FixedLengthArrayType")
     fn = fa.methods.get("enumerate_elements_with_offsets")
     if fn is None:
         raise AnalysisError("anchor enumerate_elements_with_offsets missing")
-    b = fn.params[1]
-    tr = iterator_trace(ctx, fa, fn)
-    want = ["%s = pad(var(%s), self.alignment_requirement)" % (b, b), "FOR index in range(self._capacity) [offset = cat(var(%s), rep(bls(self._element_type), index)); YIELD(index, offset)]" % b]
-    ctx.check(tr == want, fn.short, " | ".join(tr), "element i of a fixed array starts at the padded base plus i elements", fn.where(), {"expected": want}, rule="C08.R1")
-    ctx.check(sum(x.count("YIELD(") for x in tr) == 1 and "IF" not in " ".join(tr), fn.short, "one unconditional yield per element", "no element may be skipped or repeated", fn.where(), rule="C08.R2")
+    bad1, bad2 = [], []
+    for a in (1, 8):
+        for cap in (1, 2, 5):
+            et = Sym(bit_length_set=TBls.var("E", a), alignment_requirement=a)
+            for base in bases:
+                me = make_obj(ctx, fa, element_type=et, capacity=cap, alignment_requirement=a)
+                for assumptions, yielded, _ in _run_iterator(ctx, fa, fn, me, base):
+                    ctx.count()
+                    idx = [y[0] if isinstance(y, tuple) and len(y) == 2 else None for y in yielded]
+                    if idx != list(range(cap)):
+                        bad2.append({"capacity": cap, "yielded": idx})
+                        continue
+                    want = under(assumptions, lambda: [base.pad_to_alignment(a) + et.bit_length_set.repeat(i) for i in range(cap)])
+                    got = [y[1] for y in yielded]
+                    if got != want:
+                        _verdict(ctx, fn, assumptions)
+                        bad1.append({"capacity": cap, "element alignment": a, "base": repr(base), "found": [repr(x) for x in got], "expected": [repr(x) for x in want]})
+    ctx.check(not bad1, fn.short, "element offsets over abstract elements", "element i of a fixed array starts at the padded base plus i elements", fn.where(), bad1[:2], rule="C08.R1")
+    ctx.check(not bad2, fn.short, "each element yielded once, in order", "no element may be skipped or repeated", fn.where(), bad2[:2], rule="C08.R2")
     # service types have no offsets
     sv = ctx.cls(SER + "_composite.ServiceType")
     m = sv.methods.get("iterate_fields_with_offsets")
     ctx.check(m is not None and any(isinstance(x, ast.Raise) for x in ast.walk(m.node)), sv.short + ".iterate_fields_with_offsets", "raises", "a service type has no serializable fields", sv.module.relpath, rule="C08.R1", nontrivial=False)
-    ctx.sample({"rule": "C08.R1", "structure": tr})
+    ctx.sample({"rule": "C08.R1", "structure over [T0(1), T1(8)] at BASE": [repr(base) for base in bases]})
+
+
+def _new(ctx: Ctx, cls: ClassInfo) -> AObj:
+    try:
+        return construct(ctx, cls, hook=_layout_hook(ctx, cls.module, cls))
+    except (Unfoldable, Raised) as ex:
+        raise AnalysisError("cannot evaluate the constructor of %s: %s" % (cls.name, ex))
+
+
+def _expr_hook(ctx: Ctx, mod: Any, cls: Optional[ClassInfo]) -> Any:
+    """layout hook + the expression-value constructors as inert records + super()._attribute(x) as a marker"""
+    lh = _layout_hook(ctx, mod, cls)
+
+    def hook(e: ast.expr, f: Folder) -> Any:
+        r = lh(e, f)
+        if r is not NotImplemented:
+            return r
+        if isinstance(e, ast.Call):
+            name = dotted(e.func) or ""
+            last = name.split(".")[-1]
+            if isinstance(e.func, ast.Attribute) and isinstance(e.func.value, ast.Call) and dotted(e.func.value.func) == "super":
+                return ("SUPER", e.func.attr) + tuple(f.fold(a) for a in e.args)
+            if last in ("Rational", "Set", "String", "Boolean") and name.split(".")[0] in ("_expression", last):
+                args = [f.fold(a) for a in e.args]
+                return (last,) + tuple(tuple(a) if isinstance(a, list) else a for a in args)
+            if name == "map" and len(e.args) == 2:
+                k = None
+                try:
+                    k = f.fold(e.args[0])
+                except Unfoldable:
+                    pass
+                if isinstance(k, ClassInfo):
+                    return [(k.name, x) for x in f.fold(e.args[1])]
+        return NotImplemented
+
+    return hook
 
 
 def rule_r3(ctx: Ctx) -> None:
@@ -130,52 +197,142 @@ def rule_r3(ctx: Ctx) -> None:
     ctx.rule("C08.R3", "intrinsics: _offset_ / _bit_length_ / _extent_ are wired to the layout model; attribute lookups fall back to the parent class; unions reject fields after _offset_ was evaluated", min_instances=7)
     dsb = ctx.cls("_data_schema_builder.DataSchemaBuilder")
     off = dsb.methods.get("offset")
-    if off is None:
-        raise AnalysisError("anchor DataSchemaBuilder.offset missing")
-    body = body_without_docstring(off.node)
-    assigns = {norm(s.targets[0]): norm(s.value) for s in body if isinstance(s, ast.Assign) and len(s.targets) == 1}
-    rets = [norm(r.value) for r in body if isinstance(r, ast.Return)]
-    sel = assigns.get("ty", "")
-    good = sel in ("_serializable.UnionType if self.union else _serializable.StructureType", "_serializable.UnionType if self._is_union else _serializable.StructureType")
-    agg = assigns.get("out", rets[0] if rets else "")
-    good = good and agg == "ty.aggregate_bit_length_sets([f.data_type for f in self.fields])" and rets in (["out"], [agg])
-    extra = [norm(s) for s in body if not isinstance(s, (ast.Assert, ast.Return)) and not (isinstance(s, ast.Assign) and norm(s.targets[0]) in ("ty", "out", "self._bit_length_computed_at_least_once")) and not (isinstance(s, ast.Expr) and isinstance(s.value, ast.Constant))]
-    ctx.check(good and not extra, off.short, "%s ; %s" % (sel, agg), "`_offset_` is the layout aggregate of exactly the fields declared so far, of the kind the final type will have, without the final padding", off.where(), {"unexpected_statements": extra[:3]})
-    flag = assigns.get("self._bit_length_computed_at_least_once")
+    if off is None or not off.is_property:
+        raise AnalysisError("anchor DataSchemaBuilder.offset (property) missing")
+    bad = []
+    flags: set = set()
+    hookf = _layout_hook(ctx, off.module, dsb)
+    q_off = ast.parse("self.offset", mode="eval").body
+    q_add = ast.parse("self.add_field(x)", mode="eval").body
+    for union in (False, True):
+        for ts in _field_type_grids():
+            fields = [Sym(data_type=t, name="f%d" % i, _isa_=FIELD) for i, t in enumerate(ts)]
+            # the offset is queried after `cut` fields and again after all of them (a structure may grow between queries)
+            for cut in ([len(ts)] if union else range(len(ts) + 1)):
+                me = set_public(_new(ctx, dsb), fields=[], union=union, constants=[])
+                before = dict(me.__dict__)
+
+                def run() -> Any:
+                    me_fields = me.fields
+                    del me_fields[:]
+                    for k in list(me.__dict__):
+                        if k not in before:
+                            del me.__dict__[k]
+                    for k, v in before.items():
+                        if not isinstance(v, list):
+                            me.__dict__[k] = v
+                    out = []
+                    done = 0
+                    for stop in sorted({cut, len(ts)}):
+                        for x in fields[done:stop]:
+                            if union:
+                                me_fields.append(x)
+                            else:
+                                Folder({"self": me, "x": x}, repo, off.module, dsb, hookf).fold(q_add)
+                        done = stop
+                        out.append((stop, Folder({"self": me}, repo, off.module, dsb, hookf).fold(q_off)))
+                    return out
+
+                try:
+                    runs = explore(run)
+                except (Unfoldable, Raised, NotLayout) as ex:
+                    raise AnalysisError("%s: cannot evaluate over abstract fields: %s" % (off.short, ex))
+                for assumptions, outs in runs:
+                    for stop, got in outs:
+                        ctx.count()
+                        want = under(assumptions, lambda: (spec_union if union else spec_structure)(ts[:stop]))
+                        if got != want:
+                            _verdict(ctx, off, assumptions)
+                            bad.append({"union": union, "field alignments": [t.alignment_requirement for t in ts], "queried after": sorted({cut, len(ts)}), "at": stop, "found": repr(got), "expected": repr(want)})
+                flags |= {k for k, v in me.__dict__.items() if v is True and before.get(k) is not True and not k.endswith("_")}
+                if [id(x) for x in me.fields] != [id(x) for x in fields]:
+                    bad.append({"note": "the field list was modified by the query"})
+    ctx.check(not bad, off.short, "offset over abstract fields, both kinds", "`_offset_` is the layout aggregate of exactly the fields declared so far, of the kind the final type will have, without the final padding", off.where(), bad[:2])
+    # observing the offset marks the schema; a union must not grow afterwards
     af = dsb.methods.get("add_field")
-    guard = False
-    if af is not None:
-        for st in body_without_docstring(af.node):
-            if isinstance(st, ast.If) and norm(st.test) in ("self.union and self._bit_length_computed_at_least_once", "self._is_union and self._bit_length_computed_at_least_once") and st.body and isinstance(st.body[-1], ast.Raise):
-                guard = True
-    ctx.check(flag == "True" and guard, dsb.short, "offset marks the schema; add_field rejects union fields afterwards", "inter-field offsets are not defined for unions: a union must not grow after its offset was observed", dsb.module.relpath)
+    if af is None:
+        raise AnalysisError("anchor DataSchemaBuilder.add_field missing")
+    outcomes = {}
+    for union in (False, True):
+        for observed in (False, True):
+            me = set_public(_new(ctx, dsb), fields=[], union=union, constants=[])
+            for fl in flags:
+                me.__dict__[fl] = observed
+            try:
+                Folder({"self": me, "x": Sym(data_type=_field_type_grids()[1][0], name="x", _isa_=FIELD)}, repo, af.module, dsb, _layout_hook(ctx, af.module, dsb)).fold(ast.parse("self.add_field(x)", mode="eval").body)
+                outcomes[(union, observed)] = "added" if len(me.fields) == 1 else "dropped"
+            except Raised as r:
+                outcomes[(union, observed)] = r.cls_name
+            except Unfoldable as ex:
+                raise AnalysisError("%s: cannot evaluate: %s" % (af.short, ex))
+            ctx.count()
+    want_o = {(False, False): "added", (False, True): "added", (True, False): "added", (True, True): "BitLengthAnalysisError"}
+    ctx.check(bool(flags) and outcomes == want_o, dsb.short, "offset marks the schema (%s); add_field: %s" % (sorted(flags), {"union=%s,observed=%s" % k: v for k, v in outcomes.items()}), "inter-field offsets are not defined for unions: a union must not grow after its offset was observed", dsb.module.relpath)
     # selection agreement with the final type
     mk = ctx.func("_data_type_builder.DataTypeBuilder._make_composite")
-    sel2 = [norm(s.value) for s in walk_no_nested(mk.node) if isinstance(s, ast.Assign) and norm(s.targets[0]) == "ty"]
-    ctx.check(sel2 == ["_serializable.UnionType if builder.union else _serializable.StructureType"], mk.short, str(sel2), "the intrinsic and the final type choose union vs structure by the same flag", mk.where(), nontrivial=False)
+    sel = []
+    for n in ast.walk(ctx.inl(mk)):
+        test = body = orelse = None
+        if isinstance(n, ast.IfExp):
+            test, body, orelse = n.test, norm(n.body), norm(n.orelse)
+        elif isinstance(n, ast.If) and n.orelse:
+            test, body, orelse = n.test, " ".join(norm(x) for x in n.body), " ".join(norm(x) for x in n.orelse)
+        if test is not None and "union" in norm(test) and ("UnionType" in body + orelse) and ("StructureType" in body + orelse):
+            positive = not (isinstance(test, ast.UnaryOp) and isinstance(test.op, ast.Not))
+            sel.append(("UnionType" in body) == positive and ("StructureType" in orelse) == positive)
+    if not sel:
+        raise AnalysisError("_make_composite: the choice between UnionType and StructureType was not found")
+    ctx.check(all(sel), mk.short, "UnionType iff the schema is a union", "the intrinsic and the final type choose union vs structure by the same flag", mk.where(), nontrivial=False)
     # resolve_top_level_identifier
-    rt = ctx.func("_data_type_builder.DataTypeBuilder.resolve_top_level_identifier")
-    src = norm(rt.node).replace("\n", " ")
-    nm = rt.params[1]
-    good = ("if %s == '_offset_'" % nm) in src and "bls = self._structs[-1].offset" in src and "return _expression.Set(map(_expression.Rational, bls))" in src
-    good = good and ("for c in self._structs[-1].constants: if c.name == %s: return c.value" % nm) in src
-    ctx.check(good, rt.short, "_offset_ -> Set(map(Rational, current schema's offset)); constants of the current schema by name", "`_offset_` evaluates to the set of lengths of everything before this point in the current schema", rt.where())
+    dtb = ctx.cls("_data_type_builder.DataTypeBuilder")
+    rt = dtb.methods.get("resolve_top_level_identifier")
+    if rt is None:
+        raise AnalysisError("anchor resolve_top_level_identifier missing")
+    results = {}
+    for nm in ("K", "_offset_", "nope"):
+        cur = set_public(_new(ctx, dsb), fields=[], union=False, constants=[Sym(name="J", value="VJ"), Sym(name="K", value="VK")], offset=TBls.var("OFFSET"))
+        prev = set_public(_new(ctx, dsb), fields=[], union=False, constants=[Sym(name="K", value="WRONG-SECTION")], offset=TBls.var("OTHER"))
+        me = AObj(dtb, ctx, _structs=[prev, cur])
+        try:
+            results[nm] = Folder({"self": me, "n": nm}, repo, rt.module, dtb, _expr_hook(ctx, rt.module, dtb)).fold(ast.parse("self.resolve_top_level_identifier(n)", mode="eval").body)
+        except Raised as r:
+            results[nm] = "raise " + r.cls_name
+        except Unfoldable as ex:
+            raise AnalysisError("%s: cannot evaluate: %s" % (rt.short, ex))
+        ctx.count()
+    want_r = {"K": "VK", "_offset_": ("Set", (("Rational", ("ELEMENTS-OF", ("var", "OFFSET", 1))),)), "nope": "raise UndefinedIdentifierError"}
+    ctx.check(repr(results) == repr(want_r), rt.short, "_offset_ -> Set(map(Rational, current schema's offset)); constants of the current schema by name", "`_offset_` evaluates to the set of lengths of everything before this point in the current schema", rt.where(), {k: repr(v)[:120] for k, v in results.items()})
     # _bit_length_ / _extent_
     ser = ctx.cls(SER + "_serializable.SerializableType")
-    at = ser.methods.get("_attribute")
-    src = norm(at.node).replace("\n", " ") if at else ""
-    ctx.check("== '_bit_length_'" in src and "_expression.Set(map(_expression.Rational, self.bit_length_set))" in src and "return super()._attribute(%s)" % at.params[1] in src, ser.short + "._attribute", "_bit_length_ -> Set(map(Rational, self.bit_length_set)); else super()", "`T._bit_length_` is T.bit_length_set", at.where() if at else "")
     comp = ctx.cls(SER + "_composite.CompositeType")
-    at = comp.methods.get("_attribute")
-    src = norm(at.node).replace("\n", " ") if at else ""
-    ctx.check("== '_extent_'" in src and "_expression.Rational(self.extent)" in src and "return super()._attribute(%s)" % at.params[1] in src, comp.short + "._attribute", "_extent_ -> Rational(self.extent); constants by name; else super()", "`T._extent_` is T.extent", at.where() if at else "")
+    for c, intrinsic, me_kw, want_v in (
+        (ser, "_bit_length_", {"bit_length_set": TBls.var("BLS")}, ("Set", (("Rational", ("ELEMENTS-OF", ("var", "BLS", 1))),))),
+        (comp, "_extent_", {"extent": 4242, "constants": [Sym(name="K", value="VK")], "bit_length_set": TBls.var("BLS")}, ("Rational", 4242)),
+    ):
+        at = c.methods.get("_attribute")
+        if at is None:
+            raise AnalysisError("anchor %s._attribute missing" % c.name)
+        res = {}
+        for nm in (intrinsic, "K", "zzz"):
+            me = make_obj(ctx, c, **me_kw)
+            try:
+                res[nm] = Folder({"self": me, "n": Sym(native_value=nm)}, repo, at.module, c, _expr_hook(ctx, at.module, c)).fold(ast.parse("self._attribute(n)", mode="eval").body)
+            except Raised as r:
+                res[nm] = "raise " + r.cls_name
+            except Unfoldable as ex:
+                raise AnalysisError("%s: cannot evaluate: %s" % (at.short, ex))
+            ctx.count()
+        good = repr(res[intrinsic]) == repr(want_v) and isinstance(res["zzz"], tuple) and res["zzz"][:2] == ("SUPER", "_attribute")
+        if c is comp:
+            good = good and repr(res["K"]) == repr("VK")
+        ctx.check(good, c.short + "._attribute", "%s -> %s; unknown -> super()" % (intrinsic, repr(res[intrinsic])[:60]), "`T.%s` is the layout model's answer" % intrinsic, at.where(), {k: repr(v)[:100] for k, v in res.items()})
     # every _attribute override falls back to super()
     any_c = ctx.cls("_expression._any.Any")
     for c in repo.subclasses(any_c, strict=True):
         m = c.methods.get("_attribute")
         if m is None:
             continue
-        falls = [cl for cl in calls_in(m.node) if isinstance(cl.func, ast.Attribute) and cl.func.attr == "_attribute" and isinstance(cl.func.value, ast.Call) and dotted(cl.func.value.func) == "super" and [norm(a) for a in cl.args] == [m.params[1]]]
+        falls = [cl for cl in calls_in(ctx.inl(m)) if isinstance(cl.func, ast.Attribute) and cl.func.attr == "_attribute" and isinstance(cl.func.value, ast.Call) and dotted(cl.func.value.func) == "super" and len(cl.args) == 1]
         ctx.check(len(falls) >= 1, m.short, "falls back to super()._attribute(name)", "unknown attributes must reach the parent classes (and finally the undefined-attribute error)", m.where(), nontrivial=False)
 
 
